@@ -361,3 +361,48 @@ def rule_G2(ctx, R):
                               f["span"]["file"], t.get("line")))
     res.need(1, "catch_unwind call sites (positive control)")
     return res
+
+
+def rule_R6(ctx, R):
+    """the key of a consumed guard is released only after the guard's holds."""
+    res = RuleResult("R6", "any safe function consuming a key carrier: if it drops (or returns) the carrier's key, every lock and guard "
+                           "part the carrier owned has been released first - the holds never outlive the key")
+    from roles import contains_by_value
+    for f in ctx.F.fns:
+        if "inputs" not in f or f.get("unsafe") or not f.get("reachable") or "mir" not in f:
+            continue
+        idx = [i for i, t in enumerate(f["inputs"]) if t["k"] == "adt" and t["path"] in R.key_carriers]
+        if not idx:
+            continue
+        paths, err, I = ctx.paths(f)
+        if err:
+            res.undecided(f["path"], "analysis", err, *_fnloc(ctx, f))
+            continue
+        st0 = State()
+        for i in idx:
+            I.seed_arg(st0, ("O", "a%d" % (i + 1), ()), f["mir"]["locals"][i + 1]["ty"])
+        if not st0.locks and not st0.guards:
+            res.ok(f["path"] + " (carrier owns no recognisable hold)")
+            continue
+        bad = None
+        for p in paths:
+            if p.kind != "ret":
+                continue
+            key_released = any(e["k"] == "KEYDROP" and str(e.get("val", "")).startswith("a") for e in p.events)
+            v = p.value
+            t = I.optype.get(v[1]) if v and v[0] == "op" else None
+            key_returned = bool(t and t["k"] == "adt" and t["path"] == KEY)
+            if not (key_released or key_returned):
+                continue   # the carrier (or its key inside another carrier) lives on
+            for r in st0.locks:
+                if p.locks.get(r) != "U":
+                    bad = "the key is given back while lock %s owned by the consumed guard is still %s" % (ctx.arg_name(f, r), p.locks.get(r))
+            for g in st0.guards:
+                if p.guards.get(g, (0, 0, "live"))[2] != "dropped":
+                    bad = "the key is given back while guard part %s is still alive (returned, stored or forgotten)" % ctx.arg_name(f, g)
+        if bad:
+            res.bad(Violation("R6", f["path"], "key-before-holds", bad, *_fnloc(ctx, f)))
+        else:
+            res.ok(f["path"])
+    res.need(13, "safe functions consuming key carriers")
+    return res
